@@ -486,3 +486,59 @@ impl Decoded {
         v
     }
 }
+
+/// C05's oracle, usable on any decoded conversation: the greeting has id 0, and within each
+/// exchange the server's packets carry consecutive ids (mod 256) starting one above the id of
+/// the last packet of the client's request.
+pub fn check_sequence_ids(c: &Conversation, d: &Decoded) -> Result<(), String> {
+    let (_, _, last_seqs) = client_stream_meta(c);
+    if let Some(m) = d.msgs.first() {
+        let seqs: Vec<u8> = d.phys[m.first_phys..m.first_phys + m.n_phys].iter().map(|p| p.seq).collect();
+        if seqs.first() != Some(&0) {
+            return Err(format!("greeting carries sequence id {:?}, not 0", seqs.first()));
+        }
+    }
+    let check = |what: String, r: &Response, last_req: u8| -> Result<(), String> {
+        let seqs = d.seqs_of(r);
+        for (i, s) in seqs.iter().enumerate() {
+            let want = last_req.wrapping_add(1).wrapping_add(i as u8);
+            if *s != want {
+                return Err(format!(
+                    "{}: packet {} of {} carries sequence id {}, expected {} (request's last id {})",
+                    what,
+                    i,
+                    seqs.len(),
+                    s,
+                    want,
+                    last_req
+                ));
+            }
+        }
+        Ok(())
+    };
+    if let Some(a) = &d.auth {
+        check("auth reply".into(), a, last_seqs[0])?;
+    }
+    for (i, r) in d.replies.iter().enumerate() {
+        check(format!("reply to command {} ({})", i, c.cmds[i].cmd.name()), r, last_seqs[i + 1])?;
+    }
+    Ok(())
+}
+
+/// like `client_stream` but without materialising payloads: (total len, ends, last seqs)
+pub fn client_stream_meta(c: &Conversation) -> (usize, Vec<usize>, Vec<u8>) {
+    let mut total = 0usize;
+    let mut ends = Vec::new();
+    let mut last = Vec::new();
+    let mut add = |plen: usize, seq: u8| {
+        let n = frame_count(plen);
+        total += plen + 4 * n;
+        ends.push(total);
+        last.push(seq.wrapping_add((n - 1) as u8));
+    };
+    add(c.hs.payload().len(), c.hs.seq);
+    for sc in &c.cmds {
+        add(sc.cmd.payload_len_hint(), sc.seq);
+    }
+    (total, ends, last)
+}
